@@ -1039,6 +1039,11 @@ func (e *Engine) eval(fr *frame, st *State, x ast.Expr, k cont) {
 			k(st, v)
 			return
 		}
+		if sel, ok := info.Selections[x]; ok && sel.Kind() == types.MethodVal && e.Go64 {
+			// a method value handed on as a function: opaque (a call of it inside a verified callee is a logged callback)
+			k(st, unit())
+			return
+		}
 		if gv, ok := info.Uses[x.Sel].(*types.Var); ok && e.Go64 && gv.Pkg() != nil && gv.Parent() == gv.Pkg().Scope() && e.Pkgs[gv.Pkg().Path()] == nil {
 			// a package-level variable of a library (base64.StdEncoding, neorpc.ErrInsufficientFunds): an opaque constant
 			ty := spec.Type{K: spec.KAny}
